@@ -233,7 +233,8 @@ def NameTableSound (T : Table) : Prop :=
 
 Primitives: 0 `\relax`, 1 `\count`, 2 `\the`, 3 `\iftrue`, 4 `\catcode`, and 20 + i for the
 singleton variable command of parameter i (C01: 0 `\globaldefs`, 1 `\endlinechar`, 2 `\year`,
-3 `\month`, 4 `\day`, 5 `\time`). Names (any injective numbering of the interned keys does):
+3 `\month`, 4 `\day`, 5 `\time`), and 40..59 for further execution / expansion primitives
+(`\def`, `\let`, `\else`, `\fi`, `\global`, … : the harness's list). Names (any injective numbering of the interned keys does):
 10 + primitive; 2 `dimen`, 3 `skip`, 4 `toks`, 6 `mathcode` for the other register arrays. A
 register array's getters are registered under the array command's name (index = register number),
 a parameter's under the parameter's own name (index 0). -/
@@ -258,8 +259,10 @@ def stdVarOfName (n i : Nat) : Option Var :=
   else none
 
 def stdTable : Table :=
-  { nameOfPrim := fun p => if p < 5 ∨ (20 ≤ p ∧ p < 26) then some (10 + p) else none,
-    builtIn := fun n => if (10 ≤ n ∧ n < 15) ∨ (30 ≤ n ∧ n < 36) then some (n - 10) else none,
+  { nameOfPrim := fun p =>
+      if p < 5 ∨ (20 ≤ p ∧ p < 26) ∨ (40 ≤ p ∧ p < 60) then some (10 + p) else none,
+    builtIn := fun n =>
+      if (10 ≤ n ∧ n < 15) ∨ (30 ≤ n ∧ n < 36) ∨ (50 ≤ n ∧ n < 70) then some (n - 10) else none,
     nameOfVar := stdNameOfVar,
     varOfName := stdVarOfName }
 
